@@ -79,9 +79,12 @@ impl OperatorBuilder for LimitDef {
                 limit: self.limit as u64,
             }
         } else {
+            // unsigned_abs: `-limit` overflows for i64::MIN; the queue grows on demand, so a huge
+            // limit must not be allocated up front
+            let limit = self.limit.unsigned_abs() as usize;
             Limit::Tail {
-                queue: VecDeque::with_capacity(-self.limit as usize),
-                limit: -self.limit as usize,
+                queue: VecDeque::with_capacity(limit.min(1024)),
+                limit,
             }
         })
     }
